@@ -4,6 +4,9 @@
   and `Proofs/WifBip38.lean`. The Base58Check checksum function `ck` is arbitrary with four-byte values;
   the public-key check of extended public keys is an arbitrary predicate `pubOk` (C06 owns it).
 -/
+import BtcVerif.Props.GuardPins.P_bip38
+import BtcVerif.Props.GuardPins.P_bip32
+import BtcVerif.Props.GuardPins.P_wif
 import BtcVerif.Proofs.Wif
 import BtcVerif.Proofs.WifXKey
 import BtcVerif.Proofs.AddressRef
